@@ -40,8 +40,21 @@ fn main() {
     let mut rng = Rng::new(seed);
     let mut n = 0usize;
     writeln!(probe, "#![allow(dead_code, unused)]\nmod verif_harness {{ pub mod userty {{ pub struct Foo(pub u32); pub mod deep {{ pub struct Bar<T>(pub T); }} pub mod vec {{ pub struct Vec<T>(pub T, pub u8); }} }} pub mod vec {{ pub struct Vec<T>(pub T, pub u8); }} pub mod string {{ pub struct String(pub u8); }} pub mod boxed {{ pub struct Box<T>(pub T, pub u8); }} pub mod option {{ pub struct Option<T>(pub T, pub u8); }} pub mod result {{ pub struct Result<T>(pub T, pub u8); }} pub mod alloc {{ pub mod vec {{ pub struct Vec<T>(pub T, pub u8); }} }} }}\nuse crate::verif_harness as krate;").unwrap();
+    // the standard table, checked entry by entry against the compiler's own numbers for every catalogue type it registers
+    let std_table = { let mut t = StaticTypeResolver::new(); t.add_std_types(); t };
+    let std_keys: std::collections::BTreeSet<String> = std_table.to_json_value().unwrap().as_object().unwrap().keys().cloned().collect();
+    let mut std_checked: std::collections::BTreeSet<String> = Default::default();
     verif_harness::catalogue::each(&mut |src, full, host, size, align| {
         n += 1;
+        if std_keys.contains(&host.name) {
+            std_checked.insert(host.name.clone());
+            match catch(|| std_table.dynamic_type_info(&host.name)) {
+                Ok(d) => if d.info.size != size || d.info.align != align || d.info.name != host.name {
+                    writeln!(ora, "property=C18 the standard table records {}/{} for `{}`, the compiler says {}/{}", d.info.size, d.info.align, host.name, size, align).unwrap();
+                },
+                Err(e) => writeln!(ora, "property=C18 the standard table has the key `{}` but does not answer for it: {}", host.name, e.replace('\n', " ")).unwrap(),
+            }
+        }
         // the compiler's spelling uses the crate name of the harness; the source spelling uses `crate::`
         let src_abs = src.replace("crate::", "verif_harness::");
         let mut spellings = vec![full.to_string(), src_abs.clone()];
@@ -157,6 +170,33 @@ fn main() {
                     writeln!(ora, "property=C18 std::fmt::Error cannot be registered next to std::io::Error (same key)").unwrap();
                 }
             }
+        }
+    }
+    // a refused registration leaves the table as it was (whichever of the two entry points refuses)
+    {
+        let mut t4 = StaticTypeResolver::new();
+        t4.add_std_types();
+        t4.add_type::<(u8, u16)>();
+        let before = t4.to_json_string().unwrap();
+        let r1 = catch(std::panic::AssertUnwindSafe(|| { t4.add_type::<u32>(); }));
+        let r2 = catch(std::panic::AssertUnwindSafe(|| { t4.add_type_allow_uninit::<Option<[bool; 2]>>(); }));
+        let r3 = catch(std::panic::AssertUnwindSafe(|| { t4.add_type_allow_uninit::<(u8, u16)>(); }));
+        let r4 = catch(std::panic::AssertUnwindSafe(|| { t4.add_type::<[u8; 4]>(); }));
+        tables += 4;
+        if r1.is_ok() || r2.is_ok() || r3.is_ok() || r4.is_ok() { writeln!(ora, "property=C18 registering a type twice (through the other entry point) is accepted").unwrap(); }
+        let after = t4.to_json_string().unwrap();
+        if before != after {
+            let (a, b): (std::collections::BTreeMap<String, serde_json::Value>, std::collections::BTreeMap<String, serde_json::Value>) = (serde_json::from_str(&before).unwrap(), serde_json::from_str(&after).unwrap());
+            let what: Vec<String> = a.iter().filter(|(k, v)| b.get(*k) != Some(v)).map(|(k, v)| format!("{}: {} -> {}", k, v, b.get(k).map(|x| x.to_string()).unwrap_or("<gone>".into()))).collect();
+            writeln!(ora, "property=C18 a refused duplicate registration changed the table: {}", what.join("; ")).unwrap();
+        }
+    }
+    // every key of the standard table was compared with the compiler's numbers above
+    {
+        let missing: Vec<&String> = std_keys.iter().filter(|k| !std_checked.contains(*k)).collect();
+        tables += std_checked.len();
+        if !missing.is_empty() {
+            writeln!(ora, "property=C18 the standard table has {} keys the catalogue does not cover (cannot be checked against the compiler): {:?}", missing.len(), &missing[..missing.len().min(5)]).unwrap();
         }
     }
     // registering a type twice panics
